@@ -47,6 +47,15 @@ def step (ws : List String) : String :=
         | none => s!"{showKey k} panic"
       | none => "panic"
     | _, _ => "bad-op"
+  | ["netip", a, bits] =>
+    -- lpm.NetIPPrefixToIndexKey: the 16-byte form (IPv4 as ::ffff:a.b.c.d, 96 bits more)
+    match parseKey a, bits.toNat? with
+    | some a, some bits =>
+      let (d, l) := if a.length = 4 then (List.replicate 10 0 ++ [255, 255] ++ a, bits + 96) else (a, bits)
+      match encodeLPM d l with
+      | some k => showKey k
+      | none => "panic"
+    | _, _ => "bad-op"
   | _ => "bad-op"
 
 end Drv.Enc
